@@ -486,6 +486,9 @@ def make_atom(head: str, *args) -> Rat:
         return mk_reduce(head, *args)
     if head == 'gamma' and isinstance(args[1], Rat) and args[1] == args[2]:
         return args[1]
+    if head == 'Int' and len(args) == 1 and isinstance(args[0], Rat) and args[0].is_const():
+        import math
+        return C(math.trunc(args[0].const_value()))       # int() of a known number
     if head == 'el':
         base, idx = args
         if hasattr(base, 'element'):
